@@ -208,8 +208,14 @@ def config_corner(j) -> str:
         tiny = cfg.get("population_size") is not None and cfg["population_size"] < search.fixture_scale(j["opt"])["population_size"]
     except Exception:
         tiny = False
-    parts = moved + (["tiny-population"] if tiny else [])
-    return (":" + "+".join(parts)) if parts else ""
+    try:
+        from .driver import load_findings
+        if any(f.get("status") == "known" and f.get("key") == f"calls-nan:{j['opt']}" for f in load_findings()):
+            return ""                       # this optimizer hands NaN candidates over with the DOCUMENTED configuration already (listed): every corner is the same finding
+    except Exception:
+        pass
+    if tiny: return ":tiny-population"       # below the documented scale: one corner, whatever else is moved
+    return (":" + "+".join(moved)) if moved else ""
 
 
 def decide(ctx, obs_list, what: set[str]):
